@@ -21,7 +21,7 @@ SAMPLING = []
 
 
 def _java(args, env=None, timeout=None, heap="4g", to_file=None):
-    cmd = ["java", "-XX:+UseParallelGC", "-Xmx" + heap, "-cp", JAR, "tlc2.TLC"] + args
+    cmd = ["java", "-XX:+UseParallelGC", "-Xss128m", "-Xmx" + heap, "-cp", JAR, "tlc2.TLC"] + args
     e = dict(os.environ)
     if env:
         e.update(env)
@@ -185,7 +185,7 @@ def run_trace_shards(tag, shard_files, timeout=1800, heap="3g", par=16):
     def launch(i, f):
         meta = os.path.join(OUT, tag, "tmeta%d" % i)
         shutil.rmtree(meta, ignore_errors=True)
-        cmd = ["java", "-XX:+UseParallelGC", "-Xmx" + heap, "-cp", JAR, "tlc2.TLC",
+        cmd = ["java", "-XX:+UseParallelGC", "-Xss128m", "-Xmx" + heap, "-cp", JAR, "tlc2.TLC",
                "-workers", "1", "-metadir", meta, "-noGenerateSpecTE",
                "-config", cfg_path, "Trace.tla"]
         e = dict(os.environ)
